@@ -21,6 +21,37 @@ type Gen struct {
 	md      map[reflect.Type]int
 	Big     bool // allow the rare very long strings
 	lits    []int // integer constants of the codec's own sources (buffer sizes, thresholds): lengths worth trying
+	// the last few object pointers handed out: now and then one of them is used AGAIN (two fields or two vector
+	// elements holding the same pointer - a caller that puts one peer object into two places).  Values are finished
+	// before they are remembered and never changed afterwards, so sharing makes DAGs, never cycles.
+	recent []reflect.Value
+	Shared int // how many times a pointer was used a second time
+}
+
+// remember / reuse: see Gen.recent
+func (g *Gen) remember(pv reflect.Value) reflect.Value {
+	if len(g.recent) >= 6 {
+		g.recent = g.recent[1:]
+	}
+	g.recent = append(g.recent, pv)
+	return pv
+}
+
+func (g *Gen) reuse(t reflect.Type) (reflect.Value, bool) {
+	if len(g.recent) == 0 || g.R.Intn(5) != 0 {
+		return reflect.Value{}, false
+	}
+	for k := len(g.recent) - 1; k >= 0; k-- {
+		pv := g.recent[k]
+		if pv.Type() == t || t.Kind() == reflect.Interface && pv.Type().Implements(t) {
+			if pv.Elem().NumField() == 0 {
+				continue // all pointers to zero-size values are the same pointer anyway
+			}
+			g.Shared++
+			return pv, true
+		}
+	}
+	return reflect.Value{}, false
 }
 
 // litDirs: the packages whose constants the generator uses as lengths of its own
@@ -309,11 +340,19 @@ func (g *Gen) Value(t reflect.Type, depth int, nonzero bool) reflect.Value {
 			return v
 		}
 		if s, ok := g.U.StructOf(t.Elem()); ok {
-			v.Set(g.Struct(s, depth-1, nil))
+			if pv, again := g.reuse(t); again {
+				v.Set(pv)
+				return v
+			}
+			v.Set(g.remember(g.Struct(s, depth-1, nil)))
 		}
 	case reflect.Interface:
 		id, ok := g.U.ifaceID[t]
 		if !ok {
+			return v
+		}
+		if pv, again := g.reuse(t); again {
+			v.Set(pv)
 			return v
 		}
 		cands := g.implsOf[id]
@@ -336,7 +375,7 @@ func (g *Gen) Value(t reflect.Type, depth int, nonzero bool) reflect.Value {
 			return v
 		}
 		s := ok2[g.R.Intn(len(ok2))]
-		v.Set(g.Struct(s, depth-1, nil))
+		v.Set(g.remember(g.Struct(s, depth-1, nil)))
 	}
 	return v
 }
